@@ -270,17 +270,19 @@ for _k, _v in PROPS.items():
 # the properties whose Props file also asserts the sliced field programs of their own functions: when that
 # pass T8: which Go functions are regenerated as value-level Lean definitions and proved equal to the property's model
 T8 = {
-    "C01": "sign, signRFC6979 (retry loop), SignCompact, PrivateKey.PubKey, fieldToModNScalar",
+    "C05": "FieldVal.SetByteSlice (the wrapper around the SetBytes kernel)",
+    "C06": "the non-kernel ModNScalar wrappers Mul, Add, Negate, Square, SquareVal, Bytes, SetByteSlice, InverseValNonConst, InverseNonConst",
+    "C01": "sign, signRFC6979 (retry loop), Sign, SignCompact, PrivateKey.PubKey, fieldToModNScalar",
     "C02": "Signature.Verify, modNScalarToField",
     "C03": "splitK, naf, ScalarMultNonConst, ScalarBaseMultNonConst",
-    "C07": "Signature.RecoverPublicKey, Signature.ExportCompact",
+    "C07": "Signature.RecoverPublicKey, Signature.BruteforceRecoveryCode, Signature.Export, Signature.ExportCompact",
     "C10": "NonceRFC6979 (key-buffer assembly, HMAC prelude, generation loop)",
     "C11": "schnorrSign, schnorrVerify, schnorr.Sign (retry loop)",
-    "C12": "ExtendedKey.ChildWithIL, pubKeyBytes, serializeCompressedEcdsa, isEven",
+    "C12": "ExtendedKey.ChildWithIL, Child, FromSeed, Public, pubKeyBytes, serializeCompressedEcdsa, isEven",
     "C13": "ExtendedKey.UnmarshalBinary, KeyVersion.IsPrivate/ToPublic",
-    "C14": "GenerateSharedSecret",
+    "C14": "GenerateSharedSecret, PrivateKey.ECDH",
     "C15": "KoblitzCurve.IsOnCurve/Add/Double/ScalarMult/ScalarBaseMult, bigAffineToJacobian, jacobianToBigAffine, moduloReduce, PublicKey.X/Y",
-    "C19": "generatePrivateKey (with the reader's final state), PrivKeyFromBytes",
+    "C19": "generatePrivateKey (with the reader's final state), GeneratePrivateKeyFromRand, PrivKeyFromBytes",
 }
 for _k, _f in T8.items():
     PROPS[_k]["level_note"] = PROPS[_k].get("level_note", "") + " REGENERATED DRIVERS (tools/gotr pass T8): " + _f + " are translated statement by statement from /repo on every run into value-level Lean definitions (Gen/Drivers.lean) and PROVED equal to the hand-written model for all inputs (theorems *_regenerated in this property's file), so the model is tied to these functions by a theorem and not only by the differential run; T8's semantics is value-level and does not model index/slice panics (DESIGN.md section 11)."
